@@ -162,16 +162,22 @@ def run(chk):
     indexed = list(enumerate(allb, 1))
     chk.exhaustive = True
     flagrows = []
+    stream_after = None
     if pid == 'C04':
         # the flag iff of every single write, through every carrier and route of the store world (FlagIff of MC_Store)
         from . import store
         srows, _ = chk.model_check('MC_Store.tla', 'MC_Store_C01_quick.cfg', label='MC_Store (FlagIff, small world)', must_print=True)
         srows = [x for x in srows if x.get('k') == 'store']
         sel = srows if tier == 'thorough' else srows[chk.seed % 3::3]
-        for part in core.parallel_map(store._exec_small, [(row, 'C04', tier, i) for i, row in enumerate(sel)], chunksize=4):
-            flagrows += part
-        for part in core.parallel_map(store._exec_wide, [(chk.seed * 1000 + i, 'C04', (320 if tier == 'quick' else 4000) // core.NPROC + 1) for i in range(core.NPROC)]):
-            flagrows += part
+        sjobs = [(row, 'C04', tier, i) for i, row in enumerate(sel)]
+        wjobs = [(chk.seed * 1000 + i, 'C04', (320 if tier == 'quick' else 4000) // core.NPROC + 1) for i in range(core.NPROC)]
+        if tier == 'quick':
+            for part in core.parallel_map(store._exec_small, sjobs, chunksize=4):
+                flagrows += part
+            for part in core.parallel_map(store._exec_wide, wjobs):
+                flagrows += part
+        else:
+            stream_after = core.stream(store._exec_small, sjobs, store._exec_wide, wjobs, tier, step=40)     # (a generator: bounded memory)
     if pid == 'C20':
         n = 640 if tier == 'quick' else 20000
         for part in core.parallel_map(_c20_chain, [(chk.seed * 1000 + i, n // core.NPROC + 1) for i in range(core.NPROC)]):
@@ -195,7 +201,11 @@ def run(chk):
             obs += part
         return obs + flagrows
     from .. import suite
-    return _gen(indexed, sat, chk.seed, (suite.suite_rows(pid, chk) if pid in ('C02', 'C04') else []) + flagrows)
+    g = _gen(indexed, sat, chk.seed, (suite.suite_rows(pid, chk) if pid in ('C02', 'C04') else []) + flagrows)
+    if stream_after is None:
+        return g
+    import itertools
+    return itertools.chain(g, stream_after)
 
 
 def _gen(indexed, sat, seed, extra=None):
